@@ -160,7 +160,7 @@ func (st *State) boolArgs(v Value) []*Term {
 	n := int(s.Len.Val)
 	out := make([]*Term, n)
 	for i := 0; i < n; i++ {
-		out[i] = arr.E[int(s.Off.Val)+i].(*Term)
+		out[i] = arr.get(int(s.Off.Val)+i).(*Term)
 	}
 	return out
 }
